@@ -18,6 +18,10 @@ CLAIMS = {
 }
 NA = {
 }
+CLAIMS['C07'] = dict(level='proof', ref='DESIGN.md 4.5, 7 (C07)',
+   text='Rely/guarantee proof on the extracted real optimistic_lock methods: every atomic access is preceded by an arbitrary burst of other threads\' steps allowed by the rely; every own store/CAS is classified (acquire/release/obsolete) and checked against the guarantee and the lock-word invariant. Client theorems as postconditions: active write guard = unique holder and upgrade only if no writer since the section was opened (T1); successful check/unlock = snapshot, no overlapping writer (T2); obsolete final for new sections, open sections and upgrades (T3); nothing held after guard lifetime, debug read-section counter balanced (T4). NDEBUG and assertion-enabled extractions.',
+   note='Assumes sequentially consistent atomics (memory orders dropped), fewer than 2^60 acquisitions (no version wrap), soundness of the R/G rule; the spin loop of try_read_lock is cut with invariant I (partial correctness, no termination claim). Counterexamples are interleavings: reported with no-failing-input-found.',
+   technique='rely/guarantee contracts (ghost holder/acquire/release state) on the real lock methods, discharged by CBMC (SAT)')
 DEFAULT_NA = 'check not built yet at this commit (see DESIGN.md section 0 for the intended decision)'
 
 checks = []
